@@ -204,54 +204,80 @@ def body(env, mutation=None, l1_kinds=(0, 1, 2)):
                          '%s: a registered link still refers to a removed object' % tag)
 
     check('initial')
-    mut = env.choice('mutation', 9) if mutation is None else mutation
-    names = [n_ for n_ in ('L1', 'L2', 'L3', 'L4', 'L5') if n_ in real]
-    if mut == 0:
-        return
-    if mut == 1:                  # remove one registered link
-        if not names:
-            env.assume(False)
-        nm = names[env.choice('which', len(names))]
-        dc.remove_link(real[nm])
-        g.remove(nm)
-    elif mut == 2:                # add a link
-        dc.add_link(mk('L6', ['a1'], 'b0'))
-    elif mut == 3:                # remove a component that links depend on
-        D0.remove_component(cid['b0'])
-        removed_keys.append('b0')
-        own_vals['D0'].pop('b0')
-        g.drop_touching(['b0'])
-    elif mut == 4:                # remove a dataset
-        dc.remove(D1)
-        removed_data.append(D1)
-        removed_keys.extend(['a1', 's1'])
-        g.drop_touching(['a1', 's1'])
-    elif mut == 5:                # replace L1 by another link with the same endpoints, in one update
-        if 'L1' not in real:
-            env.assume(False)
-        new = mk('L1b', ['a0'], 'a1')
-        keep = [real[n_] for n_ in names if n_ != 'L1']
-        g.remove('L1')
-        g.links = [l for l in g.links if l[0] != 'L1b'] + [('L1b', ('a0',), 'a1', F['L1b'][0])]
-        dc.set_links(keep + [new])
-    elif mut == 6:                # remove + add inside a delayed update
-        if 'L1' not in real:
-            env.assume(False)
-        with dc.delay_link_manager_update():
-            dc.remove_link(real['L1'])
-            dc.add_link(mk('L1b', ['a0'], 'a1'))
-        g.remove('L1')
-        g.links = [l for l in g.links if l[0] != 'L1b'] + [('L1b', ('a0',), 'a1', F['L1b'][0])]
-    elif mut == 7:                # remove the derived attribute that a link starts from
-        D1.remove_component(cid['s1'])
-        removed_keys.append('s1')
-        g.drop_touching(['s1'])
-    elif mut == 8:                # remove a dataset, then add it back
-        dc.remove(D2)
-        g_saved = list(g.links)
-        g.drop_touching(['a2'])
-        dc.append(D2)
-    check('after mutation %d' % mut)
+    muts = [env.choice('mutation', 9)] if mutation is None else (list(mutation) if isinstance(mutation, (tuple, list)) else [mutation])
+    registered = [n_ for n_ in ('L1', 'L2', 'L3', 'L4', 'L5') if n_ in real]
+    done = []
+    for step, mut in enumerate(muts):
+        if mut == 0:
+            continue
+        d1_gone = D1 in removed_data
+        if mut == 1:                  # remove one registered link
+            if not registered:
+                env.assume(False)
+            nm = registered[env.choice('which%d' % step, len(registered))]
+            dc.remove_link(real[nm])
+            g.remove(nm)
+            registered.remove(nm)
+        elif mut == 2:                # add a link
+            if 'L6' in real or d1_gone or 'b0' in removed_keys:
+                env.assume(False)
+            dc.add_link(mk('L6', ['a1'], 'b0'))
+            registered.append('L6')
+        elif mut == 3:                # remove a component that links depend on
+            if 'b0' in removed_keys:
+                env.assume(False)
+            D0.remove_component(cid['b0'])
+            removed_keys.append('b0')
+            own_vals['D0'].pop('b0')
+            for nm in list(registered):
+                if any(('b0' in l[1] or l[2] == 'b0') for l in g.links if l[0].split(':')[0] == nm):
+                    registered.remove(nm)
+            g.drop_touching(['b0'])
+        elif mut == 4:                # remove a dataset
+            if d1_gone:
+                env.assume(False)
+            dc.remove(D1)
+            removed_data.append(D1)
+            for k in ('a1', 's1'):
+                if k not in removed_keys:
+                    removed_keys.append(k)
+            for nm in list(registered):
+                if any((set(l[1]) | {l[2]}) & {'a1', 's1'} for l in g.links if l[0].split(':')[0] == nm):
+                    registered.remove(nm)
+            g.drop_touching(['a1', 's1'])
+        elif mut in (5, 6):           # replace L1 by another link with the same endpoints: in one update / in a delayed block
+            if 'L1' not in registered or 'L1b' in real or d1_gone:
+                env.assume(False)
+            if mut == 5:
+                new = mk('L1b', ['a0'], 'a1')
+                keep = [real[n_] for n_ in registered if n_ != 'L1']
+                dc.set_links(keep + [new])
+            else:
+                with dc.delay_link_manager_update():
+                    dc.remove_link(real['L1'])
+                    dc.add_link(mk('L1b', ['a0'], 'a1'))
+            g.remove('L1')
+            g.links = [l for l in g.links if l[0] != 'L1b'] + [('L1b', ('a0',), 'a1', F['L1b'][0])]
+            registered.remove('L1')
+            registered.append('L1b')
+        elif mut == 7:                # remove the derived attribute that a link starts from
+            if d1_gone or 's1' in removed_keys:
+                env.assume(False)
+            D1.remove_component(cid['s1'])
+            removed_keys.append('s1')
+            for nm in list(registered):
+                if any((set(l[1]) | {l[2]}) & {'s1'} for l in g.links if l[0].split(':')[0] == nm):
+                    registered.remove(nm)
+            g.drop_touching(['s1'])
+        elif mut == 8:                # remove a dataset, then add it back
+            dc.remove(D2)
+            for nm in list(registered):
+                if any((set(l[1]) | {l[2]}) & {'a2'} for l in g.links if l[0].split(':')[0] == nm):
+                    registered.remove(nm)
+            g.drop_touching(['a2'])
+            dc.append(D2)
+        done.append(mut)
+        check('after mutation%s %s' % ('s' if len(done) > 1 else '', '+'.join(str(m) for m in done)))
 
 
 def harnesses(tier):
@@ -264,4 +290,13 @@ def harnesses(tier):
                               max_paths=500000, wall_s=1800,
                               bounds=dict(datasets=3, rows=2, link_kinds=['one-way', 'two-way', 'two-input', 'identity', 'from derived attribute'],
                                           graphs='all combinations of L1..L5 (L1 fixed per harness)', mutation=mut)))
+    if tier == 'thorough':
+        # every ordered pair of (different) mutations, checked after each step
+        for m1 in range(1, 9):
+            for m2 in range(1, 9):
+                if (m1 == m2 and m1 != 1) or (m1, m2) in ((3, 2), (4, 2), (4, 5), (4, 6), (4, 7), (5, 6), (6, 5)):
+                    continue          # second step not applicable after the first (e.g. its endpoints are gone)
+                hs.append(Harness('mutations=%d,%d' % (m1, m2), body, params=dict(mutation=(m1, m2), l1_kinds=(0, 1, 2)), validate=6, weight=6,
+                                  max_paths=500000, wall_s=3000,
+                                  bounds=dict(datasets=3, rows=2, graphs='all combinations of L1..L5', mutations=[m1, m2])))
     return hs
